@@ -190,3 +190,46 @@ Proof.
       destruct (_ =? 0); repeat split; discriminate.
     + destruct (decode_header_spec fuel rd Hm) as (h & crc & rd' & E & _). rewrite Hn in E. eauto.
 Qed.
+
+(* ------------------------------------------------------------------ every size byte 0..255 (and beyond) *)
+(* Header.CheckIntegrity on ANY Header value whose Size is neither 12 nor 14: a non-integrity error, first *)
+Theorem header_check_bad_size : forall h, h_size h <> 12 -> h_size h <> 14 -> header_check_integrity h = Some false.
+Proof.
+  intros h H12 H14. unfold header_check_integrity. change c_headerSizeCRC with 14. change c_headerSizeNoCRC with 12.
+  apply N.eqb_neq in H12. apply N.eqb_neq in H14. now rewrite H12, H14.
+Qed.
+
+(* the header stage on any input starting with such a size byte: illegal header size, whatever follows *)
+Theorem header_stage_bad_size : forall crcf sz t tm, sz <> 12 -> sz <> 14 ->
+  header_stage_with crcf (sz :: t) tm = Some EHeaderSize.
+Proof.
+  intros crcf sz t tm H12 H14. unfold header_stage_with. change c_headerSizeCRC with 14. change c_headerSizeNoCRC with 12.
+  apply N.eqb_neq in H12. apply N.eqb_neq in H14. now rewrite H12, H14.
+Qed.
+
+(* ... hence every decoding entry point returns that error, and Header.CheckIntegrity rejects every Header value
+   carrying that size (there is no decoded Header for such bytes: the Header is whatever a caller builds) *)
+Theorem bad_size_rejected_all_apis : forall sz t o g fuel rd, rd_data rd = sz :: t -> (measure rd < fuel)%nat ->
+  sz <> 12 -> sz <> 14 ->
+  (forall md, exists r, decode o md g rd fuel = TDone r /\ dr_err r = Some EHeaderSize /\ is_integrity EHeaderSize = false) /\
+  (forall h, h_size h = sz -> header_check_integrity h = Some false).
+Proof.
+  intros sz t o g fuel rd Hd Hm H12 H14. split.
+  - intros md. destruct (header_verdict_all_apis o g fuel rd Hm) as [Hrej _].
+    destruct (Hrej EHeaderSize ltac:(rewrite Hd; now apply header_stage_bad_size) md) as (r & E & Hr).
+    exists r. auto.
+  - intros h <-. now apply header_check_bad_size.
+Qed.
+
+(* the agreement equation for EVERY size byte: the bytes needed are demanded only when the size is 12 or 14 *)
+Theorem header_apis_agree_all_sizes : forall bs tm, bs <> [] -> is_bytes (firstn 14 bs) ->
+  (b_at bs 0 = 12 \/ b_at bs 0 = 14 -> (N.to_nat (b_at bs 0) <= length bs)%nat) ->
+  header_check_integrity (parse_header bs) = hci_of_stage (header_stage_with checksum bs tm).
+Proof.
+  intros bs tm Hne Hb Hlen.
+  destruct (N.eq_dec (b_at bs 0) 12) as [E12|N12]; [apply header_apis_agree; auto|].
+  destruct (N.eq_dec (b_at bs 0) 14) as [E14|N14]; [apply header_apis_agree; auto|].
+  destruct bs as [|sz t]; [contradiction|]. unfold b_at in N12, N14. cbn [nth] in N12, N14.
+  rewrite header_stage_bad_size by assumption. cbn [hci_of_stage].
+  apply header_check_bad_size; unfold parse_header, b_at; cbn [h_size nth]; assumption.
+Qed.
